@@ -223,19 +223,31 @@ def _pwa_and_points(rs, pattern):
     T, S = B.menpo_mods()
     src = S.TriMesh(np.array([[0., 0.], [1., 0.], [0., 1.], [1., 1.]]), trilist=np.array([[0, 1, 2], [1, 3, 2]]))
     tgt = S.PointCloud(src.points * 2 + 1)
-    pts = np.array([[rs.uniform(0.1, 0.9), rs.uniform(0.1, 0.9)] if inside else [rs.uniform(1.5, 3), rs.uniform(-2, -0.5)] for inside in pattern])
+    def point(kind):
+        if kind is True or kind == 'in':
+            return [rs.uniform(0.1, 0.9), rs.uniform(0.1, 0.9)]
+        if kind == 'edge':          # exactly on the edge shared by the two triangles: contained in both
+            return [0.5, 0.5]
+        if kind == 'vertex':        # a vertex shared by the two triangles
+            return [1.0, 0.0]
+        return [rs.uniform(1.5, 3), rs.uniform(-2, -0.5)]
+    pts = np.array([point(k) for k in pattern])
     return T.PiecewiseAffine(src, tgt), pts
 
 
 def _native_pwa_batched(ctx):
     from menpo.transform.piecewiseaffine.base import TriangleContainmentError
     rs = ctx.nprng
-    for n in range(1, 6):
-        for pattern in itertools.product([True, False], repeat=n):
+    patterns = [p for n in range(1, 6) for p in itertools.product([True, False], repeat=n)]
+    # points lying in two triangles at once (shared edge / shared vertex) mixed with inside and outside ones
+    patterns += [p for n in range(1, 5) for p in itertools.product(['in', 'out', 'edge', 'vertex'], repeat=n) if 'edge' in p or 'vertex' in p]
+    for pattern in patterns:
+        n = len(pattern)
+        if True:
             pwa, pts = _pwa_and_points(rs, pattern)
-            outside = np.array([not p for p in pattern])
+            outside = np.array([p is False or p == 'out' for p in pattern])
             for b in (1, 2, 3, 4, 5, 7):
-                tag = 'n=%d,b=%d,outside=%s' % (n, b, ''.join('1' if o else '0' for o in outside))
+                tag = 'n=%d,b=%d,points=%s' % (n, b, ''.join('o' if (p is False or p == 'out') else 'e' if p == 'edge' else 'v' if p == 'vertex' else 'i' for p in pattern))
                 try:
                     r = pwa.apply(pts, batch_size=b)
                     ctx.check_true(tag + '/returns-only-if-no-point-outside', not outside.any())
